@@ -252,7 +252,7 @@ def run(ctx):
             return 'default'
         if r < 0.20:    # names around the reserved word: only the exact name `default` is the default entrypoint
             return rng.choice(['default_admin', 'defaultOwner', 'default0', 'default_', 'set_default', 'xdefault', 'defaul', 'Default', 'default.default',
-                               'defaultdefault', 'root', 'do', 'remove_delegate', 'set_delegate'])
+                               'defaultdefault', 'root', 'do', 'remove_delegate', 'set_delegate', 'set%default', 'a%default', 'default%default', 'x%y%default'])
         n = rng.randrange(0, 32)
         if n == 0:
             return ''
@@ -312,7 +312,7 @@ def run(ctx):
                         for ty in tys:
                             expect(epkey, f'{ty} {val} to optimized', t_write(ty, val), 'ok ' + want_bytes.hex(), {'op': ty + '-to-optimized', **rpe})
                             expect(f'unforge-contract:{kind}', f'{ty} from optimized {want_bytes.hex()}', t_read(ty, want_bytes), 'ok ' + shx(want_val), {'op': ty + '-from-optimized', 'data': want_bytes.hex(), **rpe}, as_str=True)
-                        if ep is not None and ep != 'default' and not ep.endswith('%default'):
+                        if ep is not None and ep != 'default':
                             t_readable_roundtrip(tys[0], val, val)
 
     # ---- public keys ---------------------------------------------------------------------------
